@@ -623,6 +623,12 @@ func noIdentityComparisonOfScriptValues(c *core.Ctx) {
 				if singleton(bo.X) || singleton(bo.Y) {
 					continue
 				}
+				// "is this the very object the method was called on" is a
+				// question about identity by definition (a member's
+				// back-reference tested against the module itself)
+				if fn.Signature.Recv() != nil && len(fn.Params) > 0 && (bo.X == ssa.Value(fn.Params[0]) || bo.Y == ssa.Value(fn.Params[0])) {
+					continue
+				}
 				byFn[fn] = p.Pos(bo.Pos())
 			}
 		}
